@@ -20,6 +20,17 @@ ISPECS = []
 WORD = env.WORD
 
 
+def _leb128(obj, data, sign=+1):
+    """read the LEB128 number at the start of data (bytes); the instruction is
+    rejected when the input ends before the number does."""
+    if len(data) == 0:
+        raise InstructionError(obj)
+    result, blen = read_leb128(data, sign)
+    if data[blen - 1] & 0x80:
+        raise InstructionError(obj)
+    return result, blen
+
+
 @ispec("8>[ {06} ]", mnemonic="DW_OP_deref")
 @ispec("8>[ {12} ]", mnemonic="DW_OP_dup")
 @ispec("8>[ {13} ]", mnemonic="DW_OP_drop")
@@ -69,7 +80,7 @@ def dw_op_1(obj, offset):
 @ispec("*>[ {94} ~data(*) ]", mnemonic="DW_OP_plus_uconst")
 def dw_op_leb128(obj, data):
     data = pack(data)
-    result, blen = read_leb128(data)
+    result, blen = _leb128(obj, data)
     obj.operands = [env.cst(result, WORD)]
     obj.bytes += data[:blen]
     obj.type = type_data_processing
@@ -125,11 +136,8 @@ def dw_op_const(obj, data):
 @ispec("*>[ {10} ~data(*) ]", mnemonic="DW_OP_const", sz=0, sign=+1)
 @ispec("*>[ {11} ~data(*) ]", mnemonic="DW_OP_const", sz=0, sign=-1)
 def dw_op_const(obj, data):
-    sz = env.op_ptr.size
-    if data.size < sz:
-        raise InstructionError(obj)
     data = pack(data)
-    result, blen = read_leb128(data, obj.sign)
+    result, blen = _leb128(obj, data, obj.sign)
     obj.operands = [env.cst(result, WORD)]
     obj.bytes += data[:blen]
     obj.type = type_data_processing
@@ -146,7 +154,7 @@ for i in range(0x50, 0x70):
 @ispec("*>[ {90} ~data(*) ]", mnemonic="DW_OP_regx")
 def dw_op_regx(obj, data):
     data = pack(data)
-    indx, blen = read_leb128(data)
+    indx, blen = _leb128(obj, data)
     sz = env.op_ptr.size
     r = env.reg("reg%d" % indx, sz)
     obj.operands = [r]
@@ -158,7 +166,7 @@ for i in range(0x70, 0x90):
     @ispec("*>[ {%2x} ~data(*) ]" % i, mnemonic="DW_OP_breg", _num=i - 0x70)
     def dw_op_breg(obj, data, _num):
         data = pack(data)
-        result, blen = read_sleb128(data)
+        result, blen = _leb128(obj, data, -1)
         sz = env.op_ptr.size
         offset = env.cst(result, blen * 8).signextend(sz)
         obj.operands = [env.reg("reg%d" % _num, sz) + offset]
@@ -169,12 +177,13 @@ for i in range(0x70, 0x90):
 @ispec("*>[ {92} ~data(*) ]", mnemonic="DW_OP_bregx")
 def dw_op_bregx(obj, data):
     data = pack(data)
-    indx, blen = read_leb128(data)
+    indx, blen = _leb128(obj, data)
     sz = env.op_ptr.size
     r = env.reg("reg%d" % indx, sz)
+    data2 = data[blen:]
+    result, blen2 = _leb128(obj, data2, -1)
     obj.bytes += data[:blen]
-    data = data[blen:]
-    result, blen = read_sleb128(data)
+    data, blen = data2, blen2
     offset = env.cst(result, blen * 8).signextend(sz)
     obj.operands = [r + offset]
     obj.bytes += data[:blen]
